@@ -183,7 +183,14 @@ pub fn case(rng: &mut Rng) -> String {
             out.push(' ');
             enc::nats(&mut out, &idxs);
             out.push_str(" | ");
-            res(&mut out, &guard(|| Res::Aff(f.remove_rows(idxs.clone()))));
+            // the indices arrive through different iterator types (exact and inexact size hints, empty selections)
+            let lazy = rng.below(3);
+            let total = m + 1;
+            res(&mut out, &guard(|| Res::Aff(match lazy {
+                0 => f.remove_rows(idxs.clone()),
+                1 if idxs.iter().all(|i| *i < total) => f.remove_rows((0..total).filter(|i| idxs.contains(i))),
+                _ => f.remove_rows(idxs.iter().copied().filter(|_| true)),
+            })));
         }
         15 | 16 => {
             let mut f = rand_aff(rng, m + 1, n);
